@@ -161,8 +161,9 @@ def run(chk):
     # ---- (b) caller's arrays are never modified; results do not depend on memory layout ------
     corr = oqupy.PowerLawSD(alpha=0.1, zeta=1, cutoff=3.0, cutoff_type="exponential")
     par = oqupy.TempoParameters(dt=0.1, epsrel=1e-7, dkmax=3)
-    H = 0.5 * SX + 0.2 * SZ
-    O = 0.5 * SZ + 0.1 * SX
+    SY = oqupy.operators.sigma("y")
+    H = 0.5 * SX + 0.2 * SZ + 0.3 * SY          # Hermitian but not symmetric: a transposition is never invisible
+    O = 0.5 * SZ + 0.1 * SX + 0.2 * SY
     rho = np.array([[0.7, 0.2 - 0.1j], [0.2 + 0.1j, 0.3]])
 
     def entry_points():
@@ -211,7 +212,8 @@ def run(chk):
             res = oqupy.state_gradient(system=s, initial_state=r, target_derivative=target, process_tensors=[pt],
                                        parameters=np.real(params2d), progress_type="silent")
             return np.array(res["gradient"])
-        yield "state_gradient", grad, (rho, H.T.copy(), np.array([[0.1, 0.2], [0.3, 0.4], [0.5, 0.6], [0.7, 0.8]], dtype=complex))
+        # a target that is not symmetric (its transpose is a different matrix)
+        yield "state_gradient", grad, (rho, rho.T.copy() + 0.3j * SX @ SZ, np.array([[0.1, 0.2], [0.3, 0.4], [0.5, 0.6], [0.7, 0.8]], dtype=complex))
 
     for name, fn, args in entry_points():
         base = quiet(fn, *[np.array(a).copy() for a in args])
